@@ -327,9 +327,11 @@ class Equation:
         spacetime = self.program.get_spacetime()
         enum_st = spacetime is not None and spacetime.emit_pos(rank)
 
+        # The spacetime positions are only needed when the canvas is emitted
+        # (i.e., without metrics); the interval always needs them
         enum_metrics = self.metrics is None
 
-        return (enum_int or enum_st) and enum_metrics
+        return enum_int or (enum_st and enum_metrics)
 
     @staticmethod
     def __frac_coords(sexpr: Basic) -> bool:
